@@ -52,6 +52,38 @@ func checkNS(tr interceptor.Translator, r root, msg proto.Message, kind string) 
 		map[string]any{"kind": kind, "message": jsonOf(msg)})}
 }
 
+// checkNSDirty: as checkNS for a blob that needs UTF-8 repair first (see dirtyTwin); judged only when the translator
+// succeeds and the repaired result has the same name sites as the clean twin (the rest is C17's business).
+func checkNSDirty(tr interceptor.Translator, r root, clean, dirty proto.Message, counts map[string]int64, kind string) []rec.Violation {
+	mapping := reqMap
+	real := proto.Clone(dirty)
+	var err error
+	if r.isResp {
+		mapping = respMap
+		_, err = tr.TranslateResponse(real)
+	} else {
+		_, err = tr.TranslateRequest(real)
+	}
+	if err != nil {
+		counts["repaired_blob_translator_error_not_judged"]++
+		return nil
+	}
+	want := proto.Clone(clean)
+	gen.TranslateNamespaces(want, mapping)
+	got, w := gen.NamespaceSites(real), gen.NamespaceSites(want)
+	if sitePaths(got) != sitePaths(w) {
+		counts["repaired_blob_shape_differs_not_judged"]++
+		return nil
+	}
+	counts["repaired_blob_judged"]++
+	p, g, wv := firstDiff(sortedSites(got), sortedSites(w))
+	if p == "" {
+		return nil
+	}
+	return []rec.Violation{violation("C12", "ns-untranslated-in-repaired-blob:"+r.String()+":"+normPath(p), fmt.Sprintf("%s: namespace field %s inside a history blob that needed UTF-8 repair holds %q after translation, expected %q", r, p, g, wv),
+		map[string]any{"kind": kind, "clean_twin": jsonOf(clean)})}
+}
+
 func TestNamespace(t *testing.T) {
 	out := rec.Default()
 	probe := fakes.NewProbe(1)
@@ -212,6 +244,14 @@ func TestNamespace(t *testing.T) {
 				counts["blob_event_cases"]++
 				classes = append(classes, r.String()+":"+bp.String()+"<"+ep.String()+">")
 				viol = append(viol, checkNS(tr, r, msg, "blob "+bp.String()+" event "+ep.String())...)
+				if ei%2 == 0 || rec.Thorough() { // the same batch next to an event whose failure message needs UTF-8 repair
+					clean, dirty := dirtyTwin(evs, ei%4 == 0)
+					cm, dm := gen.New(r.md), gen.New(r.md)
+					putBlob(cm, bp, clean)
+					putBlob(dm, bp, dirty)
+					counts["repaired_blob_cases"]++
+					viol = append(viol, checkNSDirty(tr, r, cm, dm, counts, "blob "+bp.String()+" event "+ep.String()+" next to an event with invalid UTF-8 in its failure message")...)
+				}
 			}
 		}
 		l := rec.Line{Case: name, Viol: dedupe(viol), Counts: counts, Classes: classes}
